@@ -27,6 +27,7 @@ import shutil
 import subprocess
 import sys
 import tempfile
+import time
 import warnings
 
 from mc import core, env, explore
@@ -37,7 +38,7 @@ warnings.filterwarnings("ignore")
 ID = "C16"
 LEVEL = "model_checking"
 RULE = (
-    "BFS (mc.explore.bfs) over all event histories up to depth 4 (thorough 6) of each root configuration = "
+    "BFS (mc.explore.bfs) over all event histories up to depth 4 (thorough 6; 5 for the file-binding theme) of each root configuration = "
     "(file class, interpreter mode, theme alphabet, initial file, encoding, text/bytes arguments, binding/autosave, "
     "default realm), de-duplicated on (observable implementation state, model state); every transition is executed on "
     "the real object and compared with the reference model; a transition is non-trivial when the real method ran; "
@@ -1147,8 +1148,8 @@ def roots(quick, seed):
                     full = init in ("comments", "dups")
                     if quick and not full and (enc, args) != ("utf-8", "text"):
                         continue
-                    if quick and not full and cls == "htdigest" and realm is None:
-                        continue
+                    if cls == "htdigest" and not full and ((enc, args) != ("utf-8", "text") or realm is None):
+                        continue  # (budget) htdigest: every initial file once, comments / dups in every form
                     if quick and cls == "htdigest" and realm is None and (enc, args) not in (("utf-8", "text"), ("latin-1", "bytes")):
                         continue
                     add(cls=cls, theme="edit", init=init, enc=enc, args=args, realm=realm)
@@ -1194,6 +1195,7 @@ def explore_shard(task):
     if cfg["mode"] != MODE:
         raise HarnessError(f"shard for mode {cfg['mode']} running in a {MODE} interpreter")
     acc = Acc()
+    t0 = time.process_time()
     evs = alphabet(cfg, quick)
     seen_hashes = set()
 
@@ -1219,6 +1221,7 @@ def explore_shard(task):
     for d, c in res.depth_hist.items():
         acc.hist.setdefault("state_depth", collections.Counter())[str(d)] += c
     acc.count("transitions", res.transitions)
+    acc.count(f"cpu_ms:{cfg['cls']}:{cfg['theme']}", int(1000 * (time.process_time() - t0)))
     acc.count("shard_states", res.states)
     acc.count(f"max_depth={res.max_depth}")
     for h in res.samples[:1]:
@@ -1654,7 +1657,8 @@ def run(ctx):
     singles, batches = [], {"normal": [], "O": []}
     for mode in ("normal", "O"):
         for cfg in roots(quick, ctx.seed):
-            t = {"part": "explore", "cfg": dict(cfg, mode=mode), "depth": depth, "quick": quick}
+            d = depth if (quick or cfg["theme"] != "file") else depth - 1  # (budget) file theme: depth 5 in thorough
+            t = {"part": "explore", "cfg": dict(cfg, mode=mode), "depth": d, "quick": quick}
             if mode == "normal":
                 singles.append(t)
             else:
